@@ -1142,7 +1142,7 @@ class SSHProcess(SSHStreamSession, Generic[AnyStr]):
     def resume_feeding(self, datatype: DataType) -> None:
         """Resume feeding data from the channel"""
 
-        self._paused_write_streams.remove(datatype)
+        self._paused_write_streams.discard(datatype)
         self._maybe_resume_reading()
 
     def set_reader(self, reader: Optional[_ReaderProtocol],
@@ -1187,10 +1187,10 @@ class SSHProcess(SSHStreamSession, Generic[AnyStr]):
     def clear_writer(self, datatype: DataType) -> None:
         """Clear a writer forwarding data from the channel"""
 
+        del self._writers[datatype]
+
         if datatype in self._paused_write_streams:
             self.resume_feeding(datatype)
-
-        del self._writers[datatype]
 
     def close(self) -> None:
         """Shut down the process"""
